@@ -232,6 +232,9 @@ func (h *handle) ReadAt(p []byte, off int64) (int, error) {
 	if atomic.LoadInt32(&h.closed) != 0 {
 		return 0, os.ErrClosed
 	}
+	if hook := h.fs.R.ReadHook; hook != nil {
+		hook(h.name, off, len(p))
+	}
 	h.lf.mu.RLock()
 	defer h.lf.mu.RUnlock()
 	if off < 0 {
